@@ -1,6 +1,6 @@
 SPECIFICATION FairSpec
 CONSTANTS
-  States = {"A", "B", "C", "K1", "K2"}
+  States = {"A", "B", "K1", "K2"}
   StartStates = {"A", "B"}
   CleanupTargets = {"K1", "K2"}
   Keys = {"x", "y"}
